@@ -20,6 +20,15 @@ THEOREMS = [
     ("EG.props.C08", "C08_max_wait_reopens"),
     ("EG.props.C08", "C08_checker_accepts_spec"),
     ("EG.props.C08", "C08_checker_accepts_model"),
+    ("EG.props.C08", "C08_epoch_split"),
+    ("EG.props.C08", "C08_epoch_results_spec"),
+    ("EG.props.C08", "C08_checker_sound"),
+    ("EG.props.C08", "C08_sound_short_circuit_only_when_open"),
+    ("EG.props.C08", "C08_sound_opens_exactly_at_threshold"),
+    ("EG.props.C08", "C08_sound_half_open_trials"),
+    ("EG.props.C08", "C08_sound_trials_decide"),
+    ("EG.props.C08", "C08_sound_stale_results_no_effect"),
+    ("EG.props.C08", "C08_checker_sound_nonvacuous"),
     ("EG.props.C08", "C08_wrapper_one_record_per_call"),
     ("EG.props.C08", "C08_wrapper_context_independent"),
     ("EG.props.C08", "C08_instances_independent"),
